@@ -11,8 +11,10 @@ package httpserver
 // name of the handler invoked (or none), path seen by that handler, panic.
 
 import (
+	"bytes"
 	"encoding/json"
 	"fmt"
+	"io"
 	"net"
 	"net/http"
 	"net/http/httptest"
@@ -21,6 +23,7 @@ import (
 	"reflect"
 	"regexp"
 	"sort"
+	"strings"
 	"testing"
 
 	"github.com/megaease/easegress/pkg/context"
@@ -54,6 +57,8 @@ type c01Path struct {
 	Headers  []c01Header `json:"headers"`
 	MatchAll bool        `json:"matchAll"`
 	Filter   *c01Filter  `json:"filter"`
+	// clientMaxBodySize of the path (0 = unset, < 0 = unlimited)
+	BodyLimit int64 `json:"bodyLimit,omitempty"`
 }
 
 type c01Rule struct {
@@ -68,6 +73,7 @@ type c01Server struct {
 	Rules     []c01Rule  `json:"rules"`
 	Backends  []string   `json:"backends"` // names the MuxMapper knows
 	CacheSize int        `json:"cacheSize"`
+	BodyLimit int64      `json:"bodyLimit,omitempty"` // clientMaxBodySize of the server
 }
 
 type c01Req struct {
@@ -76,7 +82,9 @@ type c01Req struct {
 	Path    string      `json:"path"`              // URL.Path (decoded)
 	RawPath string      `json:"rawpath,omitempty"` // URL.RawPath: wire encoding when it differs (%2F, %41 ...)
 	Headers [][2]string `json:"headers"`           // raw key, value (in order; repeated keys allowed)
-	Remote  string      `json:"remote"`  // RemoteAddr
+	Remote  string      `json:"remote"`            // RemoteAddr
+	Body    int         `json:"body,omitempty"`    // number of body bytes sent
+	Chunked bool        `json:"chunked,omitempty"` // length not declared (ContentLength -1)
 }
 
 // oracle tables: values of external functions computed with the real libraries
@@ -159,12 +167,14 @@ func c01IPSpec(f *c01Filter) *ipfilter.Spec {
 }
 
 func c01Spec(s c01Server, cacheSize int) *Spec {
-	spec := &Spec{Port: 10080, KeepAlive: true, KeepAliveTimeout: "60s", MaxConnections: 10240, CacheSize: uint32(cacheSize), IPFilter: c01IPSpec(s.Filter)}
+	spec := &Spec{Port: 10080, KeepAlive: true, KeepAliveTimeout: "60s", MaxConnections: 10240, CacheSize: uint32(cacheSize), IPFilter: c01IPSpec(s.Filter),
+		ClientMaxBodySize: s.BodyLimit}
 	for _, r := range s.Rules {
 		rule := &Rule{Host: r.Host, HostRegexp: r.HostRegexp, IPFilter: c01IPSpec(r.Filter)}
 		for _, p := range r.Paths {
 			path := &Path{Path: p.Path, PathPrefix: p.Prefix, PathRegexp: p.Regexp, Methods: p.Methods,
-				RewriteTarget: p.Rewrite, Backend: p.Backend, MatchAllHeader: p.MatchAll, IPFilter: c01IPSpec(p.Filter)}
+				RewriteTarget: p.Rewrite, Backend: p.Backend, MatchAllHeader: p.MatchAll, IPFilter: c01IPSpec(p.Filter),
+				ClientMaxBodySize: p.BodyLimit}
 			for _, h := range p.Headers {
 				path.Headers = append(path.Headers, &Header{Key: h.Key, Values: h.Values, Regexp: h.Regexp})
 			}
@@ -294,8 +304,16 @@ func c01StdReq(r c01Req) *http.Request {
 	if r.RawPath != "" {
 		uri = r.RawPath
 	}
-	return &http.Request{Method: r.Method, URL: &url.URL{Path: r.Path, RawPath: r.RawPath}, Host: r.Host, Header: hdr,
+	req := &http.Request{Method: r.Method, URL: &url.URL{Path: r.Path, RawPath: r.RawPath}, Host: r.Host, Header: hdr,
 		RemoteAddr: r.Remote, Body: http.NoBody, Proto: "HTTP/1.1", ProtoMajor: 1, ProtoMinor: 1, RequestURI: uri}
+	if r.Body > 0 || r.Chunked {
+		req.Body = io.NopCloser(bytes.NewReader(bytes.Repeat([]byte{'x'}, r.Body)))
+		req.ContentLength = int64(r.Body)
+		if r.Chunked {
+			req.ContentLength = -1
+		}
+	}
+	return req
 }
 
 func (cm *c01Mux) serve(r c01Req) (o c01Out) {
@@ -490,8 +508,8 @@ var (
 	c01ReqPaths  = []string{"/a", "/ab", "/a/b", "/b", "/", "/a/", "/a/b/1", "/x/12", "", "/ab/12", "/c", "/abc", "/B", "/a/12", "/b/", "/a/A", "/a%b", "/a?b"}
 	c01Methods   = []string{"GET", "POST", "PUT", "DELETE"}
 	c01ReqMeths  = []string{"GET", "POST", "PUT", "DELETE", "mGET", "get", "PATCH", "mPOST"}
-	c01HdrKeys   = []string{"X-Test", "x-env", "Accept", "X-TEST"}
-	c01HdrVals   = []string{"v1", "v2", "v3", "", "V1", "v10"}
+	c01HdrKeys   = []string{"X-Test", "x-env", "Accept", "X-TEST", "X-Forwarded-Host", "X-Forwarded-For"}
+	c01HdrVals   = []string{"v1", "v2", "v3", "", "V1", "v10", "a.com", "8.8.8.8"}
 	c01HdrREs    = []string{`^v[0-9]$`, `^$`, `1`, `.*`, `^v1`}
 	c01Rewrites  = []string{"/new", "/n$1", "/r/$2/$1", "/new/", "/", "new", "$1", "v2/$1", "$2", "n$1/"}
 	c01Backends  = []string{"A", "B", "C"}
@@ -587,12 +605,18 @@ func c01GenPath(r *vfRand, base *c01Path, filtNum int, malformed bool) c01Path {
 		p.Rewrite = c01Pick(r, c01Rewrites)
 	}
 	p.Filter = c01GenFilter(r, filtNum, 10)
+	if r.Chance(1, 5) {
+		p.BodyLimit = int64(r.PickInt(-1, 1, 4, 8, 32))
+	}
 	return p
 }
 
 func c01GenServer(r *vfRand, filtNum int, adv bool) c01Server {
 	s := c01Server{Backends: c01Backends, Rules: []c01Rule{}}
 	s.Filter = c01GenFilter(r, filtNum, 12)
+	if r.Chance(1, 4) {
+		s.BodyLimit = int64(r.PickInt(-1, 1, 8, 16))
+	}
 	malformed := r.Chance(1, 25)
 	nr := r.Range(1, 4)
 	for i := 0; i < nr; i++ {
@@ -680,6 +704,15 @@ func c01GenReq(r *vfRand, s c01Server, withIP bool) c01Req {
 			} else if r.Chance(1, 2) {
 				q.Method = c01Pick(r, c01Methods)
 			}
+			if lim := c01EffLimit(s, p); r.Chance(1, 3) {
+				switch {
+				case lim > 0:
+					q.Body = int(lim) + r.PickInt(-1, 0, 1, 1, 7)
+				default:
+					q.Body = r.PickInt(1, 9, 40)
+				}
+				q.Chunked = r.Bool()
+			}
 			for _, h := range p.Headers {
 				switch r.Intn(5) {
 				case 0: // absent
@@ -710,7 +743,26 @@ func c01GenReq(r *vfRand, s c01Server, withIP bool) c01Req {
 	if r.Chance(1, 5) { // the same decoded path in another wire encoding
 		q.RawPath = c01EncodePath(r, q.Path)
 	}
+	if r.Chance(1, 25) { // very deep / odd paths: every request still gets exactly its routing outcome
+		switch r.Intn(4) {
+		case 0, 1:
+			q.Path = strings.Repeat(r.PickStr("/a", "/b", "/"), r.PickInt(254, 255, 256, 257, 258, 300))
+		case 2:
+			q.Path = "/a/" + strings.Repeat("b", r.PickInt(200, 1000)) + r.PickStr("", "/", "//c")
+		default:
+			q.Path = r.PickStr("//", "/a//b", "//a", "/a//", "a/b")
+		}
+		q.RawPath = ""
+	}
 	return q
+}
+
+// c01EffLimit is the limit the generator aims the body size at (path, else server).
+func c01EffLimit(s c01Server, p c01Path) int64 {
+	if p.BodyLimit != 0 {
+		return p.BodyLimit
+	}
+	return s.BodyLimit
 }
 
 // c01EncodePath returns another wire encoding of the same decoded path: some
